@@ -8,6 +8,10 @@ package main
 //      observation.Handler and Observation, either over a udp/client.Conn on an
 //      in-memory session (datagrams injected with Conn.Process, written datagrams read
 //      from the session) or by calling Handler.Handle directly with a fake client.
+//      Cancel is driven with an answered deregistration (op C) and with a deregistration
+//      exchange that fails (op X: context cancelled before / after the request is on the
+//      wire or acknowledged, write error);
+// (iii) wire-level histories with block-wise notifications: harness/c08bw.go.
 //
 // Time is "coarse virtual": before a message is injected the harness moves the
 // lastEvent stamp of every observation it holds back by the virtual time that passed
@@ -1629,10 +1633,11 @@ func runC08(a runArgs) error {
 	e := NewEmitter("C08", "Observe.Run")
 	e.ShardSize = 120
 	e.Preamble = "From GoCoap Require Import Observe.Model Observe.BwModel."
-	e.Rule = "Tab = 64 values of ValidSequenceNumber(old, new0..new0+63, last, now) as a bit table (distinct = distinct table; non-trivial = inside the 24-bit domain of RFC 7641). Hist = one history of register/message/cancel events run on the real Handler/Observation (distinct = distinct script; non-trivial = at least one message reached a callback and at least one did not)."
+	e.Rule = "Tab = 64 values of ValidSequenceNumber(old, new0..new0+63, last, now) as a bit table (distinct = distinct table; non-trivial = inside the 24-bit domain of RFC 7641). Hist = one history of register/message/cancel events run on the real Handler/Observation (distinct = distinct script; non-trivial = at least one message reached a callback and at least one did not). BHist = one wire-level history on a connection with block-wise transfer, notifications may be block-wise (distinct = distinct script; non-trivial = a block-wise transfer was opened, at least one message reached a callback and at least one did not)."
 	rng := NewRng(a.seed)
 	thorough := a.tier == "thorough"
 	discarded := 0
+	badRetries := 0
 	addScript := func(sc c8Script, fam string) {
 		if !sc.gapsOK() {
 			// move the clock of every message a little instead of dropping the script
@@ -1653,6 +1658,11 @@ func runC08(a runArgs) error {
 			}
 			text, feats, nontriv, el, bad := run(sc)
 			if el > 200*time.Millisecond && bad == "" && try < 5 {
+				continue
+			}
+			if bad != "" && try < 2 && badRetries < 20 {
+				// a watchdog fired: on a loaded machine that can be slowness; a real hang shows again
+				badRetries++
 				continue
 			}
 			if el > 200*time.Millisecond && bad == "" {
@@ -1747,7 +1757,7 @@ func runC08(a runArgs) error {
 		addScript(c8Script{wire: false, ops: c8GenUint32(rng.Fork())}, "uint32-direct")
 	}
 	// block-wise notifications (harness/c08bw.go)
-	for v := 0; v < 12; v++ {
+	for v := 0; v < 14; v++ {
 		addScript(c8Script{wire: true, bw: true, bn: true, ops: c8GenBwFixed(rng.Fork(), v)}, "blockwise-notification-scenarios")
 	}
 	nB := 150
@@ -1758,5 +1768,6 @@ func runC08(a runArgs) error {
 		addScript(c8Script{wire: true, bw: true, bn: true, ops: c8GenBwRandom(rng.Fork())}, "blockwise-notifications")
 	}
 	e.Extra["discarded_scripts"] = discarded
+	e.Extra["watchdog_retries"] = badRetries
 	return e.Flush(a.out)
 }
